@@ -436,8 +436,15 @@ func replaceEnvVars(s string) string {
 // replaceEnvReferences performs the actual replacement of env variables
 // in s, given the placeholder start and placeholder end strings.
 func replaceEnvReferences(s, refStart, refEnd string) string {
-	index := strings.Index(s, refStart)
-	for index != -1 {
+	// scan left to right and never re-scan substituted text, so that a
+	// value which itself contains a reference cannot loop forever
+	start := 0
+	for {
+		i := strings.Index(s[start:], refStart)
+		if i == -1 {
+			break
+		}
+		index := start + i
 		endIndex := strings.Index(s[index:], refEnd)
 		if endIndex == -1 {
 			break
@@ -445,12 +452,12 @@ func replaceEnvReferences(s, refStart, refEnd string) string {
 
 		endIndex += index
 		if endIndex > index+len(refStart) {
-			ref := s[index : endIndex+len(refEnd)]
-			s = strings.Replace(s, ref, os.Getenv(ref[len(refStart):len(ref)-len(refEnd)]), -1)
+			val := os.Getenv(s[index+len(refStart) : endIndex])
+			s = s[:index] + val + s[endIndex+len(refEnd):]
+			start = index + len(val)
 		} else {
 			return s
 		}
-		index = strings.Index(s, refStart)
 	}
 	return s
 }
